@@ -293,6 +293,15 @@ def zero_modulo_facts(d, facts):
     return False
 
 
+def module_const(it, module, name, default=None):
+    """value of a module-level name as seen from `module` (follows package imports: the constant may live in another module)"""
+    mod = it.model.module(module)
+    r = it.model.resolve_global(mod, name)
+    if r is None:
+        return default
+    return it._global_value(r)
+
+
 def path_sign_mod(it, expr):
     """path_sign, also using the path's exact-zero facts linearly: expr +- f1 +- f2 for zero facts f (e.g. start == 0 and end == 0 known
     separately imply start - end == 0)"""
